@@ -474,7 +474,8 @@ static bool model_step_inner(Model &m, Op &op) {
         if (!f.open || f.mode != FM_COLL || f.readonly) return skip();
         if (f.bb) return skip();   // fill_var_rec bypasses the log: its order relative to staged writes is outside the documented fragment
         int vi = resolve_var(f, op.var); if (vi < 0) return skip();
-        MVar &v = f.vars[vi]; op.var = vi; if (!v.isrec || v.no_fill || !v.fill_known || op.a[0] < 0) return skip();
+        MVar &v = f.vars[vi]; op.var = vi; if (!v.isrec || !v.fill_known || op.a[0] < 0) return skip();
+        if (v.no_fill && !v.has_fillv) { op.exp_rc = NC_ENOTFILL; return true; }   // refused, no effect; with a _FillValue attribute the call is permitted on a no-fill variable and uses that value
         long long rec = op.a[0]; ensure_records(v, rec + 1);
         for (long long k = 0; k < v.recelems; k++) { Cell &c = v.cells[(size_t)(rec * v.recelems + k)]; bool racy = c.wmask != 0; c = Cell(); c.st = racy ? CS_UNKNOWN : CS_FILL; c.wmask = (uint8_t)((1u << m.nprocs) - 1); }
         if (rec + 1 > f.numrecs) f.numrecs = rec + 1;
